@@ -19,6 +19,7 @@ EXPLANATION = (
     "len-before resp. more than one record for a [0] request. R4: a request is re-inserted to wait for more packets only "
     "while count < total and count < MAX_NODES_RESPONSES (= 15) with an increment, and `discovered` runs only after the "
     "partial-response entry was removed and without re-inserting the request.")
+EXPLANATION += (' Added while testing: R1 requires the stored / discovered records to be the filtered ones and the retain predicate to be exactly membership in the requested distances; R3 also requires the evidence to be counted before anything is removed from the answer (both branches) and PermitBanList::ban to overwrite both entries with the expiry given; R4 also requires the counter to be stored whenever the request keeps waiting and a discarded removal of the partial state to be on a completing path.')
 NOT_DECIDED = ["that no other honest behaviour is bannable (quantifies over table contents)", "the handler-side remaining_responses arithmetic",
                "a [0] (ENR update) answer carrying exactly one foreign record is not distance-checked before `discovered` (seen, not a lookup request)"]
 TRUSTED = ["Vec::retain keeps exactly the elements for which the closure returns true", "slice::contains"]
